@@ -44,6 +44,9 @@ MUTANTS = [
     ("M05-maxsum-includes-recipient", "C05", "pydcop/algorithms/maxsum.py",
      "            if f == factor or f not in costs:",
      "            if f not in costs:"),
+    ("M09-dba-no-counter-propagation", "C09", "pydcop/algorithms/dba.py",
+     "        self._termination_counter = min(recv_msg.termination_counter,\n                                        self._termination_counter)",
+     "        pass"),
     ("M09-dba-counter-never-reset", "C09", "pydcop/algorithms/dba.py",
      "            self._consistent = False\n            self._termination_counter = 0",
      "            self._consistent = False"),
